@@ -867,6 +867,7 @@ impl<'a> Ref<'a> {
                             ev.insert("count*width>=2^32".into());
                         }
                         if (cur.len() as u128) < need {
+                            ev.insert("truncated@array".into());
                             return Err(DecErr::Length);
                         }
                         let e = e as usize;
